@@ -99,7 +99,9 @@ StringDictionaryRPHTFC::StringDictionaryRPHTFC(IteratorDictString *it,
     pbeg++;
     bucket++;
 
-    while ((ptrpdict + (size_t)(bucketsize * maxlength)) > reservedInts)
+    // Each byte of the internal strings of the bucket takes one int, but
+    // the one ending a string, which takes two of them.
+    while ((ptrpdict + 2 * (pend - pbeg)) > reservedInts)
       reservedInts = Reallocate(&rpdict, reservedInts);
 
     // Stores the last position with 0 to avoid confusions with 0 values
